@@ -252,6 +252,9 @@ def hex_malformed_cases(rng, tier):
         size = VARIANTS[v][3]
         for L in range(0, 2 * size + 3):
             cases.append("frombytes %s %s" % (v, hx(rng.bytes(L))))
+        # the TEXT form (and other well-formed things of the wrong kind) handed to the binary parser
+        for t in (good, good[2:], good.lower(), good[2:].lower(), b"T1" + b"7" * (ls - 2), b"0" * ls, b"0" * (ls - 2), good[:size], good[2:2 + size]):
+            cases.append("frombytes %s %s" % (v, hx(t)))
         # fromstr (UTF-8 only): ASCII damage
         for _ in range(30 if tier == "quick" else 1000):
             d = bytearray(good)
